@@ -67,6 +67,18 @@ claim("C06",
       "BufferedRandom is over-approximated (any prefix of the buffered writes may have reached the OS).",
       "TLA+ crash model checked by TLC + TLC trace validation of kill-injected executions", "5/C06")
 
+claim("C03",
+      "TLC checks the design theorem of Compile.tla - Execute(Load(Compile(G, outs), with_values)) = Meaning(G)|outs, executed set = "
+      "operations the meaning needs, rejection exactly when required - over ALL model graphs with <= 3 nodes (six node kinds, positional "
+      "and named parents, partial observations, uses_meta, requested subsets including observed twins, with_values subsets), one operator "
+      "per compiler pass / loader and the executor's dependency rule, with a refuted negative control.  TLC emits the graphs it explores; "
+      "each, plus seeded random 3-8 node ELFI-shaped DAGs, is built through the public node constructors with symbolic operations and run "
+      "with model.generate on the real code; TLC then recomputes the meaning from the graph description (Compile_Trace.tla) and compares "
+      "returned terms, per-operation call counters and exceptions (P: clauses a-f), and compares with the compiled-net semantics (M:).",
+      "Small-scope at design level (<= 3 nodes exhaustive); named parents of Prior / Discrepancy nodes and duplicate parents (known "
+      "finding F20) are outside the generated family; symbolic operations stand for arbitrary user operations.",
+      "TLA+ denotational-vs-operational model checked by TLC + TLC-emitted graphs replayed + TLC trace validation", "5/C03")
+
 ALL = ["C%02d" % i for i in range(1, 21)]
 
 
